@@ -77,7 +77,7 @@ func nsTCP4(src, dst netip.Addr, sport, dport uint16, payload []byte) []byte {
 
 func TestC32_PendingHandshake(t *testing.T) {
 	nsSetT(t)
-	vk.Check(t, 120, func(rt *rapid.T) {
+	vk.Check(t, 1000, func(rt *rapid.T) {
 		interval := time.Duration(rapid.SampledFrom([]int{10, 25, 100, 250, 1000, 2000}).Draw(rt, "intervalMs")) * time.Millisecond
 		retries := rapid.IntRange(1, 12).Draw(rt, "retries")
 		answerAt := rapid.IntRange(1, retries+2).Draw(rt, "answerAt") // > retries: never answered
